@@ -39,6 +39,8 @@ def lookup(I, o, name):
     elif isinstance(o, SymSeq):
         from . import seqmodel
         f = seqmodel.SEQ_METHODS.get(name)
+    elif isinstance(o, SymSet):
+        f = SYMSET.get(name)
     elif isinstance(o, SymMap):
         from . import seqmodel
         f = seqmodel.MAP_METHODS.get(name)
@@ -363,3 +365,15 @@ def n_is_integer(i, o, a, k):
 NUM = {"is_integer": n_is_integer,
        "bit_length": lambda i, o, a, k: o.bit_length() if isinstance(o, int) else (_ for _ in ()).throw(Unsupported("bit_length")),
        "conjugate": lambda i, o, a, k: o}
+
+
+# ---------------------------------------------------------------------------- symbolic set
+def ss_add(i, o, a, k):
+    o.has = z3.Store(o.has, to_z3(a[0]), True)
+
+
+def ss_discard(i, o, a, k):
+    o.has = z3.Store(o.has, to_z3(a[0]), False)
+
+
+SYMSET = {"add": ss_add, "discard": ss_discard, "copy": lambda i, o, a, k: SymSet(o.has, o.elem_ty)}
